@@ -250,11 +250,18 @@ func checkProfile(c *vk.Ctx, sigma []enum.Kind, s1, s2 enum.Shape, v int, cfgs [
 		if !checkRun(c, cs, r) {
 			continue
 		}
-		if _, rows, ok := parse.Top(r.Out); ok {
+		if legend, rows, ok := parse.Top(r.Out); ok {
 			model.SortRows(rows)
 			want := ref.Rows()
 			if !reflect.DeepEqual(rows, want) && !(len(rows) == 0 && len(want) == 0) {
 				c.Violationf("top/entries"+classSuffix(a, cfg), cs, "want %v\n got %v\n%s", want, rows, r.Out)
+			}
+			// the report total: the sum of absolute sample values (divided by the sum of counts with mean)
+			if t, ok := legendTotal(legend); ok {
+				if t != ref.Total {
+					c.Violationf("top/total"+classSuffix(a, cfg), cs, "legend says %d total, the definition gives %d\n%s", t, ref.Total, r.Out)
+				}
+				c.Count("top/total-compared", 1)
 			}
 		} else {
 			c.Count("unparsed/top", 1)
@@ -637,4 +644,20 @@ func sortFC(x [][2]int64) {
 		}
 		return x[i][1] < x[j][1]
 	})
+}
+
+// legendTotal reads "... of N total" from the legend of a text report.
+func legendTotal(legend []string) (int64, bool) {
+	for _, l := range legend {
+		if i := strings.Index(l, "% of "); i >= 0 {
+			f := strings.Fields(l[i+5:])
+			if len(f) >= 2 && f[1] == "total" {
+				var v int64
+				if _, err := fmt.Sscan(f[0], &v); err == nil && fmt.Sprint(v) == f[0] {
+					return v, true
+				}
+			}
+		}
+	}
+	return 0, false
 }
